@@ -14,3 +14,44 @@ package delegation
 //@   ensures [C04] inside: (t.notBefore == nil || inst(*t.notBefore) < inst(ti)) && (t.expiration == nil || inst(ti) < inst(*t.expiration)) ==> result
 //@   ensures [C04] outside: (t.notBefore != nil && inst(ti) < inst(*t.notBefore)) || (t.expiration != nil && inst(ti) > inst(*t.expiration)) ==> !result
 //@   assigns [C20] nothing
+//@
+//@ // ---- C20: accessors and other read-only operations write nothing ---------------------------------
+//@ func (*Token).Issuer
+//@   inline
+//@   requires t != nil
+//@   assigns [C20] nothing
+//@ func (*Token).Audience
+//@   inline
+//@   requires t != nil
+//@   assigns [C20] nothing
+//@ func (*Token).Subject
+//@   inline
+//@   requires t != nil
+//@   assigns [C20] nothing
+//@ func (*Token).Command
+//@   inline
+//@   requires t != nil
+//@   assigns [C20] nothing
+//@ func (*Token).Policy
+//@   inline
+//@   requires t != nil
+//@   assigns [C20] nothing
+//@ func (*Token).Nonce
+//@   inline
+//@   requires t != nil
+//@   assigns [C20] nothing
+//@ func (*Token).Meta
+//@   inline
+//@   requires t != nil
+//@   assigns [C20] nothing
+//@ func (*Token).NotBefore
+//@   inline
+//@   requires t != nil
+//@   assigns [C20] nothing
+//@ func (*Token).Expiration
+//@   inline
+//@   requires t != nil
+//@   assigns [C20] nothing
+//@ func (*Token).IsValidNow
+//@   requires t != nil
+//@   assigns [C20] nothing
